@@ -1,5 +1,6 @@
 import Sourmash.Lemmas.SimilarityNum
 import Sourmash.Lemmas.SimilarityAng
+import Sourmash.Lemmas.SimilarityReal
 /-!
 Property C05 — similarity, containment and angular similarity are exact on retained hashes.
 Property theorems only; helper lemmas live in `Sourmash/Lemmas/Similarity*.lean`.
@@ -390,5 +391,149 @@ theorem similarity_ignore_symm (c : Container) (a b : Sketch) (hnum : a.num = b.
     similarityCore c a b true false = similarityCore c b a true false := by
   rw [similarity_calls, similarity_calls]
   simp [jaccardCore_symm c a b hnum]
+
+/-! ### T-cauchy -/
+
+/-- T-cauchy: `prod² ≤ a_sq · b_sq` for the triple of T-angular_triple (Cauchy–Schwarz on the finite
+    sums), so in exact arithmetic the quotient `prod / (√a_sq·√b_sq)` never exceeds 1 and the
+    `min(·, 1)` of the code only absorbs rounding -/
+theorem cauchy (a b : Sketch) (aab bab : List Nat) (ha : Sorted a.mins) (hb : Sorted b.mins)
+    (hla : aab.length = a.mins.length) (hlb : bab.length = b.mins.length) :
+    dot a.mins aab b.mins bab * dot a.mins aab b.mins bab
+      ≤ SimilaritySpec.sumSq aab * SimilaritySpec.sumSq bab :=
+  dot_cauchy a.mins aab b.mins bab ha hb hla hlb
+
+example : dot exA.mins [2, 3, 4, 1] exB.mins [1, 1, 6, 2, 2] * dot exA.mins [2, 3, 4, 1] exB.mins [1, 1, 6, 2, 2]
+    ≤ SimilaritySpec.sumSq [2, 3, 4, 1] * SimilaritySpec.sumSq [1, 1, 6, 2, 2] :=
+  cauchy exA exB _ _ (by decide) (by decide) rfl rfl
+
+/-- identical sketches: the triple is `(n, n, n)` with `n = Σ a²` -/
+theorem angular_triple_identical (a : Sketch) (aab : List Nat) (ha : Sorted a.mins)
+    (hla : aab.length = a.mins.length) :
+    dot a.mins aab a.mins aab = SimilaritySpec.sumSq aab := dot_self a.mins aab ha hla
+
+/-- disjoint sketches: the product is 0 -/
+theorem angular_triple_disjoint (a b : Sketch) (aab bab : List Nat)
+    (hd : ∀ h ∈ a.mins, h ∉ b.mins) : dot a.mins aab b.mins bab = 0 :=
+  dot_disjoint a.mins aab b.mins bab hd
+
+/-! ### float tails in ideal arithmetic (ℝ); the distance to binary64 is a named runtime gap -/
+
+/-- angular similarity, ideal value: in `[0, 1]` for every triple -/
+theorem angular_real_mem (p a b : ℕ) :
+    0 ≤ (angularTail p a b : ℝ) ∧ (angularTail p a b : ℝ) ≤ 1 := angularTail_mem p a b
+
+/-- angular similarity, ideal value: it is the property's formula `1 − (2/π)·arccos(cos θ)`,
+    `cos θ = Σ a_h b_h / √(Σa² · Σb²)` — the clamp is the identity by T-cauchy -/
+theorem angular_real_formula (a b : Sketch) (aab bab : List Nat)
+    (ha : Sorted a.mins) (hb : Sorted b.mins)
+    (hla : aab.length = a.mins.length) (hlb : bab.length = b.mins.length)
+    (hna : 0 < SimilaritySpec.sumSq aab) (hnb : 0 < SimilaritySpec.sumSq bab) :
+    (angularTail (dot a.mins aab b.mins bab) (SimilaritySpec.sumSq aab) (SimilaritySpec.sumSq bab) : ℝ)
+      = 1 - 2 / Real.pi * Real.arccos ((dot a.mins aab b.mins bab : ℝ)
+          / Real.sqrt ((SimilaritySpec.sumSq aab : ℝ) * (SimilaritySpec.sumSq bab : ℝ))) :=
+  angularTail_cosine _ _ _ hna hnb (cauchy a b aab bab ha hb hla hlb)
+
+example : (angularTail 9 30 46 : ℝ) = 1 - 2 / Real.pi * Real.arccos ((9 : ℝ) / Real.sqrt (30 * 46)) := by
+  have := angular_real_formula exA exB [2, 3, 4, 1] [1, 1, 6, 2, 2] (by decide) (by decide) rfl rfl
+    (by decide) (by decide)
+  have e1 : dot exA.mins [2, 3, 4, 1] exB.mins [1, 1, 6, 2, 2] = 9 := rfl
+  have e2 : SimilaritySpec.sumSq [2, 3, 4, 1] = 30 := rfl
+  have e3 : SimilaritySpec.sumSq [1, 1, 6, 2, 2] = 46 := rfl
+  rw [e1, e2, e3] at this
+  exact_mod_cast this
+
+/-- angular similarity, ideal value: 1 for identical sketches with a non-zero abundance vector -/
+theorem angular_real_identical (a : Sketch) (aab : List Nat) (ha : Sorted a.mins)
+    (hla : aab.length = a.mins.length) (hn : 0 < SimilaritySpec.sumSq aab) :
+    (angularTail (dot a.mins aab a.mins aab) (SimilaritySpec.sumSq aab) (SimilaritySpec.sumSq aab) : ℝ) = 1 := by
+  rw [angular_triple_identical a aab ha hla]
+  exact angularTail_self _ hn
+
+example : (angularTail (dot exA.mins [2, 3, 4, 1] exA.mins [2, 3, 4, 1]) (SimilaritySpec.sumSq [2, 3, 4, 1])
+    (SimilaritySpec.sumSq [2, 3, 4, 1]) : ℝ) = 1 :=
+  angular_real_identical exA _ (by decide) rfl (by decide)
+
+/-- angular similarity, ideal value: 0 for disjoint sketches -/
+theorem angular_real_disjoint (a b : Sketch) (aab bab : List Nat) (hd : ∀ h ∈ a.mins, h ∉ b.mins) :
+    (angularTail (dot a.mins aab b.mins bab) (SimilaritySpec.sumSq aab) (SimilaritySpec.sumSq bab) : ℝ) = 0 := by
+  rw [angular_triple_disjoint a b aab bab hd]
+  exact angularTail_zero_prod _ _
+
+example : (angularTail (dot [1, 2] [3, 4] [5, 6] [7, 8]) (SimilaritySpec.sumSq [3, 4])
+    (SimilaritySpec.sumSq [7, 8]) : ℝ) = 0 :=
+  angular_real_disjoint { exA with mins := [1, 2] } { exB with mins := [5, 6] } _ _ (by decide)
+
+/-- angular similarity, ideal value: symmetric in the operands (with T-sym for the triple) -/
+theorem angular_real_symm (p a b : ℕ) : (angularTail p a b : ℝ) = (angularTail p b a : ℝ) :=
+  angularTail_symm p a b
+
+/-- Jaccard / containment, ideal value of the one division: in `[0, 1]` when `c ≤ s`, … -/
+theorem ratio_real_mem (c s : ℕ) (hs : 0 < s) (hcs : c ≤ s) :
+    0 ≤ (containmentTail c s : ℝ) ∧ (containmentTail c s : ℝ) ≤ 1 := ratio_mem c s hs hcs
+
+/-- … 1 iff `c = s`, … -/
+theorem ratio_real_eq_one (c s : ℕ) (hs : 0 < s) : (containmentTail c s : ℝ) = 1 ↔ c = s :=
+  ratio_eq_one_iff c s hs
+
+/-- … 0 iff `c = 0`, … -/
+theorem ratio_real_eq_zero (c s : ℕ) (hs : 0 < s) : (containmentTail c s : ℝ) = 0 ↔ c = 0 :=
+  ratio_eq_zero_iff c s hs
+
+/-- … monotone in `c`. -/
+theorem ratio_real_mono (c c' s : ℕ) (hs : 0 < s) (h : c ≤ c') :
+    (containmentTail c s : ℝ) ≤ (containmentTail c' s : ℝ) := ratio_mono c c' s hs h
+
+/-- `jaccard` divides by `max(1, size)`: the same quotient whenever the union is non-empty, 0 otherwise -/
+theorem jaccard_real (c s : ℕ) :
+    (jaccardTail c s : ℝ) = if s = 0 then (c : ℝ) else (containmentTail c s : ℝ) := by
+  rw [jaccardTail_real, containmentTail_real]
+  by_cases h : s = 0
+  · simp [h]
+  · have : max 1 s = s := by omega
+    simp [h, this]
+
+/-- the pairs the code divides satisfy `c ≤ s` (so the four facts above apply): scaled … -/
+theorem pair_le_scaled (a b : List Nat) : (inter a b).length ≤ (union a b).length := by
+  unfold inter union
+  have := List.length_filter_le (fun h => b.contains h) a
+  simp only [List.length_append]; omega
+
+/-- … num … -/
+theorem pair_le_num (n : Nat) (a b : List Nat) (ha : Sorted a) (hb : Sorted b) :
+    (jaccardPair n a b).1 ≤ (jaccardPair n a b).2 := by
+  by_cases hn : n = 0
+  · simp only [jaccardPair, hn, if_true]; exact pair_le_scaled a b
+  · simp only [jaccardPair, hn, if_false]
+    -- the filtered intersection is a duplicate-free sub-collection of the bottom-n
+    apply List.Subperm.length_le
+    apply List.subperm_of_subset ((ha.filter _).filter _).nodup
+    intro h hh
+    simpa using (List.mem_filter.mp hh).2
+
+/-- … containment. -/
+theorem pair_le_containment (a b : List Nat) :
+    (SimilaritySpec.containmentPair a b).1 ≤ (SimilaritySpec.containmentPair a b).2 :=
+  List.length_filter_le _ _
+
+/-- Jaccard / containment in binary arithmetic: the correctly rounded quotient mantissa at any scale
+    `K` (`K = 2^53` for results in `[1/2, 1]`) never exceeds `K` (value ≤ 1), … -/
+theorem ratio_rounded_le_one (c s K : ℕ) (hs : 0 < s) (hcs : c ≤ s) : rnStep (c * K) s ≤ K :=
+  rn_le_one c s K hs hcs
+
+/-- … equals `K` (value exactly 1.0) iff `c = s`, as long as `s ≤ K` (counts below 2^53), … -/
+theorem ratio_rounded_eq_one (c s K : ℕ) (hs : 0 < s) (hcs : c ≤ s) (hK : s ≤ K) :
+    rnStep (c * K) s = K ↔ c = s := rn_eq_one_iff c s K hs hcs hK
+
+/-- … is monotone in `c`, … -/
+theorem ratio_rounded_mono (c c' s K : ℕ) (hs : 0 < s) (h : c ≤ c') :
+    rnStep (c * K) s ≤ rnStep (c' * K) s := rn_mono c c' s K hs h
+
+/-- … is 0 for `c = 0` and not 0 for `c > 0` once the scale reaches the quotient's binade. -/
+theorem ratio_rounded_zero (c s K : ℕ) (hs : 0 < s) :
+    rnStep (0 * K) s = 0 ∧ (s ≤ c * K → 1 ≤ rnStep (c * K) s) :=
+  ⟨rn_zero s K hs, rn_pos c s K hs⟩
+
+example : rnStep (3 * 2 ^ 53) 3 = 2 ^ 53 := (ratio_rounded_eq_one 3 3 (2 ^ 53) (by decide) (by decide) (by decide)).mpr rfl
 
 end Sourmash.C05
